@@ -228,7 +228,13 @@ char * epub_package_document(scratch_pad * scratch) {
 		print_const("</meta>\n");
 	} else {
 		time_t t = time(NULL);
+#if (defined(_WIN32) || defined(__WIN32__))
 		struct tm * today = localtime(&t);
+#else
+		// localtime() hands out a pointer to static storage shared by all threads
+		struct tm today_buffer;
+		struct tm * today = localtime_r(&t, &today_buffer);
+#endif
 
 		d_string_append_printf(out, "<meta property=\"dcterms:modified\">%d-%02d-%02d</meta>\n",
 							   today->tm_year + 1900, today->tm_mon + 1, today->tm_mday);
